@@ -62,7 +62,7 @@ namespace adm {
   // ---- isDefault ---- //
   bool AudioBlockFormatDirectSpeakers::isDefault(
       detail::ParameterTraits<Rtime>::tag) const {
-    return duration_ == boost::none;
+    return rtime_ == boost::none;
   }
 
   // ---- Setter ---- //
